@@ -771,3 +771,35 @@ Definition disc_bad (s : state) : bool :=
 Definition w_disc : list op := [Cc 0; Sc 0; Q 0; Sr 0; Pd 0; Cd 0; Cc 0; Q 0; As 0].
 Lemma w_disc_spec : disc_bad (run cfg1 w_disc) = true.
 Proof. vm_compute. reflexivity. Qed.
+
+(* fix 9915d96: a poll on an empty channel never releases an expired (to-be-removed) connection
+   that still has data or borrows on ANY channel; it is released exactly when nothing is left *)
+Lemma retained_kept : forall g s cl ch k,
+  c_sub (k_chan k ch) = [] -> lenN (c_bor (k_chan k ch)) <> MB g ->
+  existsb chan_has_data_or_borrows (k_ch k) = true ->
+  poll_retained g s cl ch [k] = (s, R1None).
+Proof.
+  intros g s cl ch k Hs Hb He. cbn [poll_retained].
+  destruct (N.eqb_spec (lenN (c_bor (k_chan k ch))) (MB g)); [contradiction|].
+  rewrite Hs, He. reflexivity.
+Qed.
+Lemma retained_released : forall g s cl ch k,
+  c_sub (k_chan k ch) = [] -> lenN (c_bor (k_chan k ch)) <> MB g ->
+  existsb chan_has_data_or_borrows (k_ch k) = false ->
+  poll_retained g s cl ch [k] = (upd_conn s cl (k_sv k) (fun k => k_with_cv k VNone), R1None).
+Proof.
+  intros g s cl ch k Hs Hb He. cbn [poll_retained].
+  destruct (N.eqb_spec (lenN (c_bor (k_chan k ch))) (MB g)); [contradiction|].
+  rewrite Hs, He. reflexivity.
+Qed.
+(* two requests in flight, the server answers request a, drops both active requests and itself;
+   pending_b polls first (nothing), pending_a still receives its response *)
+Definition cfg4 : cfg := mkCfg 2 1 1 1 1 1 1 false false false 0.
+Definition w_sibling : list op := [Cc 0; Sc 0; Q 0; Q 0; Sr 0; Sr 0; As 0; Ad 0; Ad 0; Sd 0].
+Lemma w_sibling_spec :
+  let s := run cfg4 w_sibling in
+  s_sreg s = [] /\ digest_p s = [(0, false, true); (1, false, false)] /\
+  snd (step cfg4 ord_all s (Pr 1)) = ORecvNone /\
+  digest_p (fst (step cfg4 ord_all s (Pr 1))) = [(0, false, true); (1, false, false)] /\
+  snd (step cfg4 ord_all (fst (step cfg4 ord_all s (Pr 1))) (Pr 0)) = OResp 0.
+Proof. vm_compute. repeat split; reflexivity. Qed.
